@@ -635,6 +635,40 @@ def r20_14(run, model):
                    "no type information; dot completion after `p.` (p from util.gom) is empty")
 
 
+def r20_16(run, model):
+    run.rule("R20.16", "a hover finds the node the lowering recorded for the place: the lowering records the variable of a shorthand field "
+                       "(`Point { x }` as a literal or a pattern) under the field node - the only node it has - so the walks from the token "
+                       "under the cursor up to a recorded expression / pattern accept that node kind besides expression / pattern nodes "
+                       "(or filter by nothing at all)")
+    LOWER = "crates/ast/src/lower.rs"
+    rec = 0
+    for g in model.fns(LOWER):
+        if g.body is None:
+            continue
+        rec += len(re.findall(r"MySyntaxNodePtr::new\(field\.syntax\(\)\)", S.norm_ws(run.facts.text(LOWER, g.body["sp"]))))
+    run.anchor("nodes recorded under a field node by the lowering", str(rec))
+    n = 0
+    for f in model.fns(QUERY):
+        if f.body is None or not any("HirResultsIndex" in (p["ty"] or "") for p in f.params() if not p["self"]):
+            continue
+        for w in S.find(f.body, "While"):
+            looks = [c for c in S.walk(w["body"]) if c["k"] == "MethodCall" and re.fullmatch(r"(expr|pat)_id", c["method"]) and S.is_path(c["recv"], "index")]
+            if not looks:
+                continue
+            par = S.Parents(w["body"])
+            for c in looks:
+                n += 1
+                gates = [a for a in par.ancestors(c) if a["k"] == "If" and S.span_contains(a["then"]["sp"], c["sp"]) and
+                         re.search(r"can_cast|\.kind\(\)|matches!", S.norm_ws(run.facts.text(QUERY, a["cond"]["sp"])))]
+                want = "STRUCT_LITERAL_FIELD" if c["method"] == "expr_id" else "STRUCT_PATTERN_FIELD"
+                ok = rec == 0 or not gates or all(re.search(r"\b" + want + r"\b", S.norm_ws(run.facts.text(QUERY, g_["cond"]["sp"]))) for g_ in gates)
+                run.ob("R20.16", f"{f.name}|the walk accepts the node a shorthand field is recorded under", ok, site(QUERY, c["sp"]),
+                       f"index.{c['method']}(..) " + (f"under `{S.norm_ws(run.facts.text(QUERY, gates[0]['cond']['sp']))[:90]}`" if gates else "for every ancestor"),
+                       witness="fn mk(x: int32, y: string) -> Point { Point { x, y } }: hover on x answers `Point` (the first mapped ancestor of an "
+                               "accepted kind is the whole literal); same for `let Point { x, y } = p`")
+    run.floor("index lookups in upward walks", n, 2)
+
+
 def r20_15(run, model):
     from rules import c04 as _c04
     _c04.r04_7(run, model, only_files=("crates/compiler/src/query.rs", "crates/wasm-app/src/lib.rs"))
@@ -654,6 +688,7 @@ def run(run, model):
     run.try_rule(r20_14, model)
     # the byte scanning of the textual fallbacks must not index past the end of any text, the empty one included (shared with C04 R04.7)
     run.try_rule(r20_15, model)
+    run.try_rule(r20_16, model)
     from rules import c07
     run.rule("R20.7", "the occurs check looks into every component of every type former (shared with C07 R07.2, restricted to typer::unify): a "
                       "missed component lets a cyclic type through and the next query overflows the stack")
